@@ -31,7 +31,9 @@ Step ==
      ELSE IF skip THEN UNCHANGED <<st, skip, viols, nexec>>
      ELSE IF e.e = "end" THEN
         /\ IF e.overrun
-           THEN viols' = Append(viols, [x |-> nexec, line |-> l, prop |-> "C09", why |-> "execution exceeded the step limit: some operation does not complete"])
+           THEN viols' = Append(viols, [x |-> nexec, line |-> l,
+                                        prop |-> IF \E t \in DOMAIN st.pend : st.pend[t] # <<>> /\ Head(st.pend[t]).op \in ReadingOps THEN "C08+C09" ELSE "C09",
+                                        why |-> "execution exceeded the step limit: some operation does not complete"])
            ELSE IF e.info.solo_max > SoloStepBound
            THEN viols' = Append(viols, [x |-> nexec, line |-> l, prop |-> "C09", why |-> "an operation running alone (all other threads frozen) did not complete within the bound"])
            ELSE UNCHANGED viols
